@@ -239,6 +239,15 @@ def Val.query : Val → List String → Option Val
     | none => none
   | _, _ :: _ => none
 
+/-- `Query(path)` fails (and the batch is rejected) when the path leads through a value that is not a map -/
+def Val.pathOk : Val → List String → Bool
+  | _, [] => true
+  | .map m, k :: rest =>
+    match m.find? (fun e => e.1 == k) with
+    | some e => e.2.pathOk rest
+    | none => true
+  | _, _ :: _ => false
+
 /-- `getPropertyFromBytes`: no data, a missing field and a nil field all give nil -/
 def getProp (doc : Option Val) (path : List String) : Option Val :=
   match doc with
@@ -353,8 +362,14 @@ def typeOk (k : Kind) : Option Val → Bool
     | .flt, .flt _ => true
     | _, _ => false
 
+def docPathOk (d : Option Val) (path : List String) : Bool :=
+  match d with
+  | none => true
+  | some v => v.pathOk path
+
 def Index.typesOk (ix : Index) (pcs : List PChange) : Bool :=
-  pcs.all fun pc => typeOk ix.kind (getProp pc.prev ix.path) && typeOk ix.kind (getProp pc.cur ix.path)
+  pcs.all fun pc => docPathOk pc.prev ix.path && docPathOk pc.cur ix.path &&
+    typeOk ix.kind (getProp pc.prev ix.path) && typeOk ix.kind (getProp pc.cur ix.path)
 
 /-! ### write batches -/
 
